@@ -67,6 +67,28 @@ CHECKS = {
    ref='DESIGN.md section 6 C15', note='Trusted: Coq kernel + vm_compute; translate/pylocks2coq.py (fail-closed; cross-checked per method against bytecode attribute names and runtime '
         'observation); the theorem is about a source-line-granular interleaving semantics with the RLock as mutual exclusion: CPython bytecode-level switching and NumPy releasing the GIL are outside the model.',
    technique='Coq proof (serializability by forward simulation) applied by vm_compute to a lock table regenerated from the source by a translator; schedule search on the real class when it fails'),
+ 'C04': dict(
+   text='Theorems over EVERY finite history of pop_buffer / pause(t <= clock) / resume on every queue class: the log holds exactly the non-cancelled '
+        'trials (per (stimulus, start): live = #added - #removed, so nothing is removed twice or without being live); remaining + non-cancelled presentations = '
+        'requested at every step; at empty exactly requested (>= for keep-completed policies); one pause removes exactly the live trials ending after t, newest first, '
+        'restores each once, leaves nothing pending; paused output is zeros with no trial start; first trial after resume(t2) starts at t2; future pause rejected. '
+        'Model tied to queue.py by a correspondence that pauses at EVERY sample position of small timelines plus random histories.',
+   ref='DESIGN.md section 6 C04', note=COMMON_NOTE + ' Pause/resume times on the sample grid; declared duration == waveform length; a rejected pause ends the history. Shuffle/randint are oracles.',
+   technique='Coq proof (history invariant by induction over operations) + vm_compute model outputs compared against queue.py'),
+ 'C05': dict(
+   text='Refinement theorem: the model of capture_epoch/extract_epochs equals an abstract spec send by send for every stream, chunking (incl. empty chunks), '
+        'request/removal schedule; hence each never-removed request inside the look-back is delivered exactly once with exactly stream[lo, lo+n) and its own metadata, '
+        'removed-before-complete never delivered, removed-after unaffected, done callback at most once and only when pending is empty and the source complete. '
+        'Model tied to pipeline.py by correspondence on 1-D/2-channel, plain/annotated inputs.',
+   ref='DESIGN.md section 6 C05', note=COMMON_NOTE + ' lo/n/B are computed by the harness with the code\'s own float expressions; distinct (t0,key); one known finding (unequal per-request durations completing in one send).',
+   technique='Coq proof (refinement to an abstract spec, induction over sends) + vm_compute correspondence against pipeline.py'),
+ 'C10': dict(
+   text='Theorems about an aliasing model (heap of storages, views, caller writes, memo table, deep copy): in EVERY program each next() returns what a heap-free '
+        'reference semantics returns (function of the generator\'s own parameters and calls); noninterference under insertion of caller writes / memoised calls / '
+        'global-random use / use of other generators; reset and deepcopy replay; memoised results are pure and writes to them rejected. The model is tied to '
+        'stim.py by random programs on real objects with in-place writes into every returned array, plus queue append/clone programs judged by an oracle.',
+   ref='DESIGN.md section 6 C10', note=COMMON_NOTE + ' That real objects have no hidden shared state beyond what the model lists is probed by the correspondence, not proved; RandomSignalQueue (global RNG by design) is outside.',
+   technique='Coq proof (refinement of an aliasing heap model to a pure reference semantics) + vm_compute model outputs compared against stim.py'),
 }
 
 PENDING = 'not yet built in this round (framework is being extended property by property; see DESIGN.md section 8)'
